@@ -226,6 +226,10 @@ const (
 	defaultServerConnectionTimeout     = 120 * time.Second
 )
 
+// httpBodyCodecType is the key of the codec used for google.api.HttpBody
+// messages. It is looked up by message name only.
+const httpBodyCodecType = "google.api.HttpBody"
+
 var (
 	defaultMuxOptions = muxOptions{
 		maxReceiveMessageSize: defaultServerMaxReceiveMessageSize,
@@ -239,7 +243,7 @@ var (
 		"application/json":         CodecJSON{},
 		"application/protobuf":     CodecProto{},
 		"application/octet-stream": CodecProto{},
-		"google.api.HttpBody":      codecHTTPBody{},
+		httpBodyCodecType:          codecHTTPBody{},
 	}
 
 	defaultCompressors = map[string]Compressor{
@@ -334,6 +338,9 @@ func NewMux(opts ...MuxOption) (*Mux, error) {
 		muxOpts.codecsByName[v.Name()] = v
 	}
 	for k := range muxOpts.codecs {
+		if k == httpBodyCodecType {
+			continue // internal, not a media type to negotiate
+		}
 		muxOpts.contentTypeOffers = append(muxOpts.contentTypeOffers, k)
 	}
 	sort.Strings(muxOpts.contentTypeOffers)
